@@ -17,8 +17,47 @@ theorem return_sound (s t : St) (h : Step s t) (i : Nat) (w w' : W) (r : WRes)
     match r with
     | .nil => ∃ v, (live s w.key).2 = some v ∧ v ≠ w.ver
     | .notExist => (live s w.key).2 = none
-    | .ctxErr => w.ctxDone = true :=
-  sorry
+    | .ctxErr => w.ctxDone = true := by
+  have key : ∀ (i0 : Nat) (w0 w0' : W), s.ws[i0]? = some w0 →
+      (∀ j, t.ws[j]? = if j = i0 then some w0' else s.ws[j]?) → i = i0 ∧ w = w0 ∧ w' = w0' := by
+    intro i0 w0 w0' h0 hg
+    by_cases hii : i = i0
+    · subst hii
+      rw [hg, if_pos rfl] at hw'
+      rw [h0] at hw
+      cases hw; cases hw'
+      exact ⟨rfl, rfl, rfl⟩
+    · rw [hg, if_neg hii, hw] at hw'
+      cases hw'
+      exact absurd hr (hn r)
+  have same : t.ws = s.ws → False := fun h => by
+    rw [h, hw] at hw'; cases hw'; exact hn r hr
+  cases h with
+  | check i0 w0 hw0 hp0 =>
+    obtain ⟨w0', hg, hres⟩ := check_obs s i0 w0 hw0
+    obtain ⟨rfl, rfl, rfl⟩ := key i0 w0 w0' hw0 hg
+    have := hres r hr
+    cases r <;> simp_all
+  | wake i0 w0 ch hw0 hp0 hc =>
+    obtain ⟨rfl, rfl, rfl⟩ := key i0 w0 _ hw0 (fun j => setW_get s i0 j w0 _ hw0)
+    simp at hr
+  | cancelled i0 w0 ch hw0 hp0 hd =>
+    have hw1 : (leave s w0.key ch).ws[i0]? = some w0 := by simpa using hw0
+    obtain ⟨rfl, rfl, rfl⟩ := key i0 w0 { w0 with pc := .returned .ctxErr } hw0
+      (fun j => by simpa using setW_get _ i0 j w0 { w0 with pc := .returned .ctxErr } hw1)
+    simp at hr; subst hr; exact hd
+  | timer i0 w0 ch hw0 hp0 =>
+    have hw1 : (leave s w0.key ch).ws[i0]? = some w0 := by simpa using hw0
+    obtain ⟨rfl, rfl, rfl⟩ := key i0 w0 { w0 with pc := .start } hw0
+      (fun j => by simpa using setW_get _ i0 j w0 { w0 with pc := .start } hw1)
+    simp at hr
+  | write k => exact (same (by simp)).elim
+  | delete k r0 hr0 => exact (same (by simp)).elim
+  | touch k => exact (same (live_ws s k)).elim
+  | expire k r0 hr0 => exact (same rfl).elim
+  | ctxCancel i0 w0 hw0 =>
+    obtain ⟨rfl, rfl, rfl⟩ := key i0 w0 _ hw0 (fun j => setW_get s i0 j w0 _ hw0)
+    exact absurd hr (hn r)
 
 /-- C07.no_lost_wakeup: a waiter parked on an open channel implies the record still exists with
 exactly the version the waiter waits on and the channel is the key's current waiter record — so
@@ -26,18 +65,26 @@ every mutation of the key (which closes that channel) reaches it, and nothing el
 theorem no_lost_wakeup (ws : List W) (hf : Fresh ws) (s : St) (h : Reach ws s) (i : Nat) (w : W) (ch : Nat)
     (hw : s.ws[i]? = some w) (hp : w.pc = .parked ch) (ho : ch ∉ s.closed) :
     (∃ r, getRec s w.key = some r ∧ r.ver = w.ver) ∧ (∃ n, getEntry s w.key = some (ch, n)) :=
-  sorry
+  (Inv.reach hf h).park i w ch hw hp ho
 
 /-- C07.table_exact: every waiter record counts exactly the waiters parked on its channel, is never
 empty and never closed; hence the table is empty when no waiter is parked. -/
 theorem table_exact (ws : List W) (hf : Fresh ws) (s : St) (h : Reach ws s) :
     (∀ e ∈ s.table, e.2.2 = parkedOn s e.2.1 ∧ 0 < e.2.2 ∧ e.2.1 ∉ s.closed) ∧
-    (s.table.map (·.1)).Nodup ∧ (s.table.map (·.2.1)).Nodup :=
-  sorry
+    (s.table.map (·.1)).Nodup ∧ (s.table.map (·.2.1)).Nodup := by
+  have hi := Inv.reach hf h
+  exact ⟨fun e he => hi.tex e.1 e.2.1 e.2.2 (hi.mem_table he), hi.tkeys, hi.chs_nodup⟩
 
 theorem no_bookkeeping_left (ws : List W) (hf : Fresh ws) (s : St) (h : Reach ws s)
-    (hq : ∀ w ∈ s.ws, ∀ ch, w.pc ≠ .parked ch) : s.table = [] :=
-  sorry
+    (hq : ∀ w ∈ s.ws, ∀ ch, w.pc ≠ .parked ch) : s.table = [] := by
+  have hi := Inv.reach hf h
+  cases ht : s.table with
+  | nil => rfl
+  | cons e l =>
+    have he : e ∈ s.table := by simp [ht]
+    have h1 := hi.tex e.1 e.2.1 e.2.2 (hi.mem_table he)
+    obtain ⟨w, hw, hp⟩ := exists_of_parkedOn_pos s e.2.1 (by omega)
+    exact absurd hp (hq w hw _)
 
 /-- C07.cancel_isolated: a waiter that gives up closes the channel only if it was the last one
 parked on the key's current record; every other waiter keeps its state. -/
@@ -45,13 +92,38 @@ theorem cancel_isolated (ws : List W) (hf : Fresh ws) (s : St) (h : Reach ws s) 
     (hw : s.ws[i]? = some w) (hp : w.pc = .parked ch) (hd : w.ctxDone = true) :
     let t := setW (leave s w.key ch) i { w with pc := .returned .ctxErr }
     (∀ j, j ≠ i → t.ws[j]? = s.ws[j]?) ∧
-    (∀ c, c ∈ t.closed → c ∉ s.closed → c = ch ∧ parkedOn t ch = 0) ∧ t.recs = s.recs :=
-  sorry
+    (∀ c, c ∈ t.closed → c ∉ s.closed → c = ch ∧ parkedOn t ch = 0) ∧ t.recs = s.recs := by
+  have hi := Inv.reach hf h
+  have hw1 : (leave s w.key ch).ws[i]? = some w := by simpa using hw
+  refine ⟨?_, ?_, by simp⟩
+  · intro j hj
+    have := setW_get _ i j w { w with pc := .returned .ctxErr } hw1
+    simpa [hj] using this
+  · intro c hc hnc
+    have hpk := parkedOn_setW (leave s w.key ch) i w { w with pc := .returned .ctxErr } ch hw1
+    rw [parkedOn_congr s (leave s w.key ch) (leave_ws s w.key ch) ch] at hpk
+    simp only [hp, if_true] at hpk
+    rcases leave_cases s w.key ch with ⟨_, hl⟩ | ⟨n, hen, hn, hl⟩ | ⟨n, hen, hn, hl⟩
+    · rw [hl] at hc; exact absurd hc hnc
+    · have hex := hi.tex _ _ _ hen
+      rw [hl] at hc
+      simp only [setW_closed, List.mem_cons] at hc
+      rcases hc with rfl | hc
+      · refine ⟨rfl, ?_⟩
+        simp at hpk
+        omega
+      · exact absurd hc hnc
+    · rw [hl] at hc; exact absurd hc hnc
 
 /-- a parked waiter whose condition has come true can always proceed: its channel is closed -/
 theorem wake_enabled (ws : List W) (hf : Fresh ws) (s : St) (h : Reach ws s) (i : Nat) (w : W) (ch : Nat)
     (hw : s.ws[i]? = some w) (hp : w.pc = .parked ch)
-    (hc : getRec s w.key = none ∨ ∃ r, getRec s w.key = some r ∧ r.ver ≠ w.ver) : ch ∈ s.closed :=
-  sorry
+    (hc : getRec s w.key = none ∨ ∃ r, getRec s w.key = some r ∧ r.ver ≠ w.ver) : ch ∈ s.closed := by
+  apply Classical.byContradiction
+  intro ho
+  obtain ⟨⟨r, hr, hv⟩, _⟩ := (Inv.reach hf h).park i w ch hw hp ho
+  rcases hc with hc | ⟨r', hr', hv'⟩
+  · rw [hc] at hr; cases hr
+  · rw [hr'] at hr; cases hr; exact hv' hv
 
 end C07
